@@ -87,6 +87,12 @@ fn k_io_read_xys_and_parts() {
     let pts = r.unwrap();
     assert!(pts.len() == 2 && pts[0].x.to_bits() == v[0] && pts[0].y.to_bits() == v[1] && pts[1].x.to_bits() == v[2] && pts[1].y.to_bits() == v[3]);
     assert!(pts[0].m.to_bits() == NO_DATA.to_bits() && pts[1].m.to_bits() == NO_DATA.to_bits());
+    // Z vertices start from a default whose measure is NO_DATA (what a record without the optional M block must report)
+    let mut s2: &[u8] = &buf[..];
+    let rz = read_xy_in_vec_of::<PointZ, _>(&mut s2, 2);
+    assert!(rz.is_ok());
+    let ptz = rz.unwrap();
+    assert!(ptz.len() == 2 && ptz[1].x.to_bits() == v[2] && ptz[0].m.to_bits() == NO_DATA.to_bits() && ptz[1].m.to_bits() == NO_DATA.to_bits() && ptz[0].z == 0.0);
     let p: [i32; 2] = kani::any();
     let mut pb = [0u8; 8];
     put_i32(&mut pb, 0, p[0]);
